@@ -467,8 +467,9 @@ prop(
     groups=[(["./cfg"], r"^(ParseFieldSelector|ParseNestedFields|ParseNestedFields\$1)$"),
             (["./plugin/action/keep_fields"], r"^\(\*Plugin\)\.traverseFieldsTree$"),
             (["./plugin/action/remove_fields", "./pipeline"], r"^\(\*Plugin\)\.Do$")],
+    canaries=[("./cfg", "replay/C18/zz_selector_escape_test.go", "TestVerifSelectorTwoEscapedDots")],
     claim=(
-        "Path-list normalisation and the keep_fields buffer protocol under contract: ParseFieldSelector is panic-free for every selector; ParseNestedFields drops a path exactly when an earlier, not longer path is an element-wise prefix of it "
+        "Path-list normalisation and the keep_fields buffer protocol under contract: ParseFieldSelector is panic-free for every selector and conserves bytes (every byte of the selector lands in exactly one path element, or is a separator dot, or is an escape marker - nothing collected for an element is lost or repeated; one fix came out of it); ParseNestedFields drops a path exactly when an earlier, not longer path is an element-wise prefix of it "
         "(oracle on slices.Equal: compared as path elements, never as joined strings, after a length sort whose comparator is verified) and keeps it otherwise - listing a path and a descendant equals listing the path alone; "
         "keep_fields.traverseFieldsTree, with a ghost height of the path tree as the recursion's measure, indexes its per-depth delete buffers in range, leaves every buffer from its own depth downwards empty on return "
         "(nothing leaks into the next sibling or the next event) and never changes the number of buffers; a field of the event goes on the delete list only if it is not a child of the path node or it is an inner path node under which the recursive walk found no configured target. "
